@@ -1,32 +1,31 @@
 ---- MODULE TraceFdIO ----
 (* Trace specification for C20.  "tofd": the serialization text, the script of per-call write
-   outcomes (n > 0: at most n bytes are accepted, 0: everything, -1: the call fails) and what
-   arrived in the file.  FdIO!WriteRun over the script decides: success (ret 0) exactly when no
-   failing call is reached, then delivered = text, once, in order; on failure ret = -1, a write
-   error message is retrievable, and what arrived is the prefix written before the failure.
-   "fromfd": FdIO!ReadRun decides whether a read failed before the end of the data (then: no value,
-   read error message); otherwise the result equals the one-call memory parse of the same bytes
-   with the same depth (value and all), a parse failure leaves a parse error message, depth < 1 an
-   allocation message; no allocation survives any call. *)
+   outcomes (n > 0: at most n bytes are accepted, 0: everything, -1: the call fails), how many
+   failures were actually returned to the library (err_hit) and what arrived in the file: success
+   (ret 0) exactly when no write failed, then delivered = text, once, in order; after a failed
+   write ret = -1, a write error message is retrievable, and what arrived is a prefix of the text.
+   "fromfd": when a read failed: no value, read error message; otherwise the result equals the
+   one-call memory parse of the same bytes with the same depth (value and all), a parse failure
+   leaves a parse error message, depth < 1 an allocation message; no allocation survives any call.
+   How many read()/write() calls json-c makes and with which sizes is not prescribed (a different
+   buffer size conforms): the verdict uses the failures actually delivered to the library; the loop
+   structure itself (FdIO.tla, json-c's present 4096-byte loops) is model-checked by MCFdIO. *)
 EXTENDS Naturals, Integers, Sequences, TLC, Json, IOUtils
 VARIABLES st, l
-F == INSTANCE FdIO WITH MUTF <- {}
-Ramp(n) == [i \in 1..n |-> i % 251]
+NoFailure(script) == \A i \in 1..Len(script) : script[i] >= 0
 ToFdOk(r) ==
     LET long == r.textlen > 3000
-        text == IF long THEN Ramp(r.textlen) ELSE r.text
-        w == F!WriteRun(text, r.script \o <<0>>)       \* after the script, calls transfer everything
     IN /\ r.leak = 0
-       /\ IF w.st = "ok" THEN r.ret = 0 /\ r.dlen = r.textlen /\ r.prefix_ok /\ (long \/ r.delivered = r.text)
-          ELSE r.ret = -1 /\ r.errcls = "write" /\ r.dlen = Len(w.out) /\ r.prefix_ok /\ (long \/ r.delivered = SubSeq(r.text, 1, Len(w.out)))
+       /\ NoFailure(r.script) => r.err_hit = 0
+       /\ IF r.err_hit = 0 THEN r.ret = 0 /\ r.dlen = r.textlen /\ r.prefix_ok /\ (long \/ r.delivered = r.text)
+          ELSE r.ret = -1 /\ r.errcls = "write" /\ r.prefix_ok /\ r.dlen <= r.textlen
 FromFdOk(r) ==
-    LET data == IF r.blen > 3000 THEN Ramp(r.blen) ELSE r.bytes
-        rd == F!ReadRun(data, 4096, r.script \o [i \in 1..((r.blen \div 4096) + 2) |-> 0])
-    IN /\ r.leak = 0
-       /\ IF r.depth = 0 THEN ~r.got_value /\ r.errcls = "alloc"
-          ELSE IF rd.st = "err" THEN ~r.got_value /\ r.errcls = "read"
-          ELSE IF r.mem_ok THEN (IF r.mem_null_value THEN ~r.got_value ELSE r.got_value /\ r.equal /\ r.val = r.mem)
-          ELSE ~r.got_value /\ r.errcls = "parse"
+    /\ r.leak = 0
+    /\ NoFailure(r.script) => r.err_hit = 0
+    /\ IF r.depth = 0 THEN ~r.got_value /\ r.errcls = "alloc"
+       ELSE IF r.err_hit > 0 THEN ~r.got_value /\ r.errcls = "read"
+       ELSE IF r.mem_ok THEN (IF r.mem_null_value THEN ~r.got_value ELSE r.got_value /\ r.equal /\ r.val = r.mem)
+       ELSE ~r.got_value /\ r.errcls = "parse"
 OpenOk(r) == ~r.got_value /\ r.errcls = "open" /\ r.ret = -1 /\ r.errcls2 = "open" /\ r.ret_null = -1 /\ r.leak = 0
 StepOfImpl(s, r) == [ok |-> CASE r.e = "tofd" -> ToFdOk(r) [] r.e = "fromfd" -> FromFdOk(r) [] r.e = "open" -> OpenOk(r) [] OTHER -> FALSE, st |-> s]
 TraceLog == ndJsonDeserialize(IOEnv.TRACE)
